@@ -863,3 +863,57 @@ def rule_n(P, tables):
                 findings.append({"rule": "N4", "key": f"N4|{fn}", "msg": f"{fn} uses a rayon parallel iterator on the compile path: reductions and collects complete in scheduling order", "loc": P.site_loc(fn, s["line"]), "detail": {}})
     obl.append({"rule": "N4", "inst": "no rayon parallel iterators in compile-path functions", "ok": npar == 0})
     return findings, obl, samples, {"nondet_consulting_functions": n, "mutable_statics": ns}
+
+
+def clippy_crosscheck(P, log=None):
+    """thorough tier: an independent, type-resolved implementation of N1 (clippy's disallowed_methods) must report the same
+    functions as the driver. Returns (ok, detail dict)."""
+    import json
+    import os
+    import subprocess
+    import facts
+    conf = os.path.join(facts.VERIF, "tables", "clippy")
+    target = os.path.join(facts.CACHE, "clippy-target")
+    env = dict(os.environ)
+    env["CLIPPY_CONF_DIR"] = conf
+    env["CARGO_TARGET_DIR"] = target
+    env["CARGO_NET_OFFLINE"] = "true"
+    for k in ("RUSTFLAGS", "RUSTC_WORKSPACE_WRAPPER"):
+        env.pop(k, None)
+    pkgs = []
+    for p in ("fontdrasil", "fontir", "fontbe", "fontc", "fea-rs", "ufo2fontir", "glyphs2fontir", "glyphs-reader", "fontra2fontir"):
+        pkgs += ["-p", p]
+    cmd = ["cargo", "+nightly", "clippy", "--offline", "--message-format=json"] + pkgs + ["--", "-A", "clippy::all", "-W", "clippy::disallowed_methods"]
+    r = subprocess.run(cmd, cwd=facts.REPO, env=env, stdout=subprocess.PIPE, stderr=subprocess.PIPE, text=True)
+    sites = set()
+    for line in r.stdout.splitlines():
+        try:
+            m = json.loads(line)
+        except ValueError:
+            continue
+        msg = m.get("message") or {}
+        code = (msg.get("code") or {}).get("code")
+        if code == "clippy::disallowed_methods":
+            for sp in msg.get("spans", []):
+                if sp.get("is_primary"):
+                    sites.add((sp["file_name"], sp["line_start"]))
+    if r.returncode != 0 and not sites:
+        return None, {"error": r.stderr[-500:]}
+    # driver side: lines of N1 references (clock/env/thread/process kinds only)
+    mine = set()
+    reach = e3.entry_reach(P)
+    for fn in reach:
+        if fn not in P.bodies:
+            continue
+        for s in P.iter_sites(fn):
+            if s["kind"] in ("call", "fnref") and any(nondet_kind(t) in ("clock", "env", "thread/process identity") for t in s["targets"]):
+                loc = P.site_loc(fn, s["line"])
+                f, ln = loc.rsplit(":", 1)
+                mine.add((f, int(ln)))
+    cl = {(f, ln) for f, ln in sites if "/tests/" not in f and not f.endswith("build.rs")}
+    only_clippy = sorted(x for x in cl if x not in mine)
+    only_driver = sorted(x for x in mine if x not in cl)
+    # clippy also sees #[cfg(test)]-free util/bin code that is not reachable from the entry points: only the
+    # reverse direction is an error (the driver must not miss a reachable site clippy sees in the same file/line set)
+    return (not only_driver), {"clippy_sites": len(cl), "driver_sites": len(mine), "only_clippy": [f"{f}:{l}" for f, l in only_clippy][:20],
+                               "only_driver": [f"{f}:{l}" for f, l in only_driver][:20]}
